@@ -256,7 +256,7 @@ func (c16) Case(c *core.Ctx) {
 		c.NonTrivial(cfp)
 	}
 	indent := []string{"  ", "\t", " ", ""}[r.Intn(4)]
-	prefix := []string{"", " ", "\t", ""}[r.Intn(4)]
+	prefix := []string{"", " ", "\t", "", "\t ", " \t", "\t \t"}[r.Intn(7)] // (mixed blanks: the indent string may occur inside the prefix)
 	if !isSeq && r.Intn(6) == 0 {
 		// pad so that the compact XML is exactly a multiple of 4096 bytes (buffer boundaries in the Writer forms)
 		content["pad"] = "p"
